@@ -102,7 +102,8 @@ class Check:
                 construct = where._module.segment(where)[:400]
             except Exception:
                 construct = None
-        if verdict == VIOLATED and not isinstance(where, tuple):
+        # (rules about *which API is called from where* - K-WHO - read no reconstructed value: the presence of the call is the finding)
+        if verdict == VIOLATED and not isinstance(where, tuple) and not kind.startswith("K-WHO"):
             # the analyser's model has a boundary: inside a function that uses constructs it does not interpret (functions
             # passed as values, functools / itertools / operator combinators, structural pattern matching it could not
             # normalise) a mismatch is "cannot decide", never a claimed violation
